@@ -593,8 +593,32 @@ func RunRebuild(s *Scen, r *vk.Rand, a, b int, bin, base string, cycles int) {
 			s.inconclusive("restart: %v", err)
 			return
 		}
-		interrupt := r.Intn(6)
+		interrupt := (s.Case/100 + cyc*5 + r.Intn(2)*8) % 8 // every kind of interruption occurs across the workers of a run
 		srcKilled := false
+		if interrupt >= 6 {
+			// single file transfers fail: the ssync sender processes that feed the rebuilding replica are killed as
+			// they appear - for a moment (one transfer fails, the next ones work) or for 2.5 s (every retry fails too)
+			window := 3000 * time.Millisecond
+			if interrupt == 7 {
+				window = 2500 * time.Millisecond
+			}
+			deadline := time.Now().Add(40 * time.Second)
+			for time.Now().Before(deadline) && !x.LogHas("Synchronizing", logFrom) {
+				time.Sleep(2 * time.Millisecond)
+			}
+			killed := 0
+			for end := time.Now().Add(window); time.Now().Before(end); time.Sleep(time.Millisecond) {
+				if interrupt == 6 {
+					// the transfers of the snapshots' data files fail, those of their metadata files work
+					killed += killSenders(x.IP, ".img")
+					continue
+				}
+				killed += killSenders(x.IP, "")
+			}
+			s.Res.Count("file_transfer_senders_killed", int64(killed))
+			s.Res.Count(fmt.Sprintf("rebuilds_with_failing_transfers_kind%d", interrupt), 1)
+			cl.event("killed %d ssync senders feeding replica %d during %v", killed, x.Idx, window)
+		}
 		if interrupt > 0 && interrupt < 4 {
 			marker := []string{"", "Addreplica", "syncFiles", "reloadAndVerify"}[interrupt]
 			deadline := time.Now().Add(40 * time.Second)
@@ -951,4 +975,40 @@ func tailStr(l []string, n int) []string {
 		return l[len(l)-n:]
 	}
 	return l
+}
+
+// killSenders kills the ssync sender processes whose destination host is ip (and whose file name ends with suffix,
+// if one is given) and returns how many it found.
+func killSenders(ip, suffix string) int {
+	ents, _ := os.ReadDir("/proc")
+	n := 0
+	for _, e := range ents {
+		pid := 0
+		if _, err := fmt.Sscanf(e.Name(), "%d", &pid); err != nil || pid <= 1 {
+			continue
+		}
+		b, err := os.ReadFile("/proc/" + e.Name() + "/cmdline")
+		if err != nil {
+			continue
+		}
+		args := strings.Split(string(b), "\x00")
+		if len(args) == 0 || !strings.Contains(args[0], "ssync") {
+			continue
+		}
+		sender := false
+		for i, a := range args {
+			if a == "-host" && i+1 < len(args) && args[i+1] == ip {
+				sender = true
+			}
+		}
+		if suffix != "" && !strings.HasSuffix(strings.TrimRight(args[len(args)-1], "\x00"), suffix) {
+			if len(args) < 2 || !strings.HasSuffix(args[len(args)-2], suffix) { // cmdline ends with a NUL: last element is empty
+				sender = false
+			}
+		}
+		if sender && syscall.Kill(pid, syscall.SIGKILL) == nil {
+			n++
+		}
+	}
+	return n
 }
